@@ -42,6 +42,10 @@ def body(led):
     from . import c13_stiffk, py_stiffeners
     c13_stiffk.check_blade1d(led, only=('fkMf',))
     py_stiffeners.check_bladestiff1d(led, which=('kM',))
+    # the mass contributions of the 2-D stiffeners: component panels with the stiffener's density, their own domain and (for a base that
+    # rides on the skin amplitudes) the skin's edge flags
+    py_stiffeners.check_bladestiff2d(led, only=('kM',))
+    py_stiffeners.check_tstiff2d_kG0_kM(led, only=('kM',))
     ok, _ = K.compare(real('mu') * 2, real('mu'))
     led.canary('2*mu vs mu', not ok)
 
